@@ -842,6 +842,36 @@ def stroke_sig(sc, tup):
     return {"fam": sc.get("fam"), "kind": sc.get("kind"), "join": st.get("join"), "cap": st.get("cap"), "dashed": "dash" in st}
 
 
+def stroke_ops_binding(pid, v, fam, seed, n, cap):
+    """Output-level binding of the stroker: the closed pieces stroke_to_path (public API) emits for n polylines (plain
+    or dashed) are compared by TLC (Trace_StrokeOps) with the pieces of Stroke.tla / Dash.tla - rectangles, bevel
+    triangles, miter quadrilaterals, square caps vertex by vertex within 3/64 px, round pieces within their discs.
+    A difference is not a verdict: the input is rendered as it is and enlarged four times and returned for the
+    per-pixel validation.  On the repaired tree nothing differs."""
+    ds = drive(pid, fam, seed + 21, n)
+    for s in ds:
+        s["want_stroke_path"] = True
+    tp = execute(pid, "strokeops-" + fam, ds)
+    t = validate(pid, "Trace_StrokeOps", tp, workers=12, timeout=3000)
+    v.add_tlc(t)
+    drift = t.tuples("DRIFT")
+    v.extra.setdefault("stroke_output_binding", {})[fam] = {"inputs": len(ds), "pieces_differ": len(drift), "skipped": len(t.tuples("SKIP"))}
+    out = []
+    for tup in drift[:cap]:
+        sc = dict(ds[tup[1] - 1])
+        sc.pop("want_stroke_path", None)
+        sc["id"] = "strokeops-%s" % sc["id"]
+        out.append(sc)
+        big = dict(sc)
+        big["id"] = sc["id"] + "-x4"
+        big["w"], big["h"] = min(sc["w"] * 4, 96), min(sc["h"] * 4, 96)
+        big["ctm"] = dict(sc["ctm"], m=[x * 4 for x in sc["ctm"]["m"]])
+        out.append(big)
+    if drift:
+        log("[%s] stroke_to_path output differs from the Stroke.tla pieces on %d of %d inputs; %d rendered scenarios added" % (pid, len(drift), len(ds), len(out)))
+    return out
+
+
 @prop("C04")
 def c04(tier, seed):
     v = Verdicts("C04", tier, seed)
@@ -873,6 +903,7 @@ def c04(tier, seed):
     scs += drive("C04", "stroke", seed, 2000 if th else 250)
     # a non-positive or NaN width paints nothing (plain and dashed strokes, every cap and join)
     scs += drive("C04", "stroke-nonpos", seed, 400 if th else 60) + drive("C04", "stroke-nonpos", seed + 1, 400 if th else 60)
+    scs += stroke_ops_binding("C04", v, "stroke", seed, 20000 if th else 2500, 40 if th else 8)
     simple_validate("C04", v, scs, "all", "Trace_Stroke", sigfn=stroke_sig, timeout=3000)
     # curved paths stroked with round joins (margin 1 px): the tube of half the width around the curve
     g, cs = gen_scenarios("C04", "Gen_Curve", env={"FAM": "cstroke", "NOPS": 4, "NVAR": 1, "SALT": seed}, simulate=1500 if th else 120,
@@ -952,6 +983,7 @@ def c09(tier, seed):
     # a dash array whose total is not positive paints nothing (zeros, entries cancelling out, negative totals)
     scs += drive("C09", "dash-nonpos", seed, 300 if th else 50)
     scs += dash_drift_scenarios(v, seed, 200000 if th else 30000, 600 if th else 60)
+    scs += stroke_ops_binding("C09", v, "dash", seed, 10000 if th else 1500, 40 if th else 8)
     v.exhaustive = th
     simple_validate("C09", v, scs, "all", "Trace_Dash", sigfn=stroke_sig, timeout=3000)
     v.samples = [scs[0], scs[-1]]
